@@ -2,6 +2,7 @@
 import copy
 from .. import common as C
 from .. import engine as E
+from .. import stages as S2
 from .. import catalogue as K
 from .. import tys as T
 from .. import speccheck as S
@@ -34,6 +35,7 @@ def run(ctx, H):
                     p = K.set_at(p, path, (cur + cur + cur + [copy.deepcopy(x) for x in cur])[:3] if cur else cur)
             sc, d, kind = S.script_mix(ctx, 0.6)
             cases.append(E.Case(e, p, "json" if K.is_json_doc(p) and ctx.rng.random() < 0.3 else "ov", sc, d, kind, k))
+    cases += S2.staged_cases(ctx, H)
     S.run_spec_check(ctx, H, "c11", cases,
                      [("mon_c11", "under a keep-going error type the user functions invoked (which, in which order, with which arguments) differ from the reference interpreter"),
                       ("mon_c01", "an error of a field-level error type or of a user function was dropped or handed over twice")],
